@@ -441,6 +441,41 @@ static void mode_date(void)
   H_SAMPLE("date: datetime_tai/datetime_untai/date822fmt/myctime against gmtime for two instants of every day 1970..2109, the last and first second of every day, 19 edge instants");
 }
 
+/* ------------------------------------------------------------------------------------------------ alloc */
+/* Allocation failures as an environment answer: the k-th allocation of a run fails once (ENOMEM), for every k, while a stralloc grows
+ * in steps of 1, 7, 100 and 1000 bytes; the long-running programs go on using the object after such a failure (qmail-send's
+ * `while (!stralloc_...) nomem()` loops, spawn.c).  After every call: a failed call changed nothing, a successful one appended exactly
+ * its bytes, and the capacity the object claims never exceeds the block it owns (own bookkeeping of the blocks handed out, so the
+ * verdict does not depend on a sanitizer catching the later overflow).  The linker's --wrap reroutes the tree's malloc/realloc/free. */
+extern void *__real_malloc(size_t); extern void *__real_realloc(void *, size_t); extern void __real_free(void *);
+static long al_calls, al_fail_at = -1; static struct { void *p; size_t n; } al_blk[64];
+static void al_note(void *p, size_t n) { int i; for (i = 0; i < 64; i++) if (!al_blk[i].p) { al_blk[i].p = p; al_blk[i].n = n; return; } }
+static void al_drop(void *p) { int i; for (i = 0; i < 64; i++) if (al_blk[i].p == p) al_blk[i].p = 0; }
+static long al_size(void *p) { int i; for (i = 0; i < 64; i++) if (al_blk[i].p == p) return (long) al_blk[i].n; return -1; }
+void *__wrap_malloc(size_t n) { void *p; if (al_fail_at >= 0 && al_calls++ == al_fail_at) { errno = ENOMEM; return 0; } p = __real_malloc(n); if (al_fail_at >= 0 && p) al_note(p, n); return p; }
+void *__wrap_realloc(void *o, size_t n) { void *p; if (al_fail_at >= 0 && al_calls++ == al_fail_at) { errno = ENOMEM; return 0; } p = __real_realloc(o, n); if (al_fail_at >= 0 && p) { al_drop(o); al_note(p, n); } return p; }
+void __wrap_free(void *p) { if (al_fail_at >= 0) al_drop(p); __real_free(p); }
+static void mode_alloc(void)
+{
+  static const unsigned steps[] = { 1, 7, 100, 1000 }; unsigned si; long k;
+  for (si = 0; si < 4; si++) for (k = 0; k < 24; k++) { stralloc sa = {0}; static char ref[200000], chunk[1000]; unsigned reflen = 0, i, failures = 0, step = steps[si]; int bad = 0;
+    al_calls = 0; al_fail_at = k; memset(al_blk, 0, sizeof al_blk);
+    for (i = 0; i < 150 && !bad; i++) { unsigned j, before = sa.len; int r; long own;
+      snprintf(h_cur, sizeof h_cur, "c00 alloc: allocation #%ld fails, append %u of %u bytes", k, i, step);
+      for (j = 0; j < step; j++) chunk[j] = (char) ('a' + (i + j) % 26);
+      r = stralloc_catb(&sa, chunk, step); n_eval++;
+      if (r) { memcpy(ref + reflen, chunk, step); reflen += step; } else failures++;
+      own = sa.s ? al_size(sa.s) : 0;
+      if (!r && sa.len != before) { H_FAIL("lib:alloc:failed-call-changed-length", "allocation #%ld failing: stralloc_catb returned 0 but the length went from %u to %u", k, before, sa.len); bad = 1; }
+      else if (sa.s && own >= 0 && (long) sa.a > own) { H_FAIL("lib:alloc:capacity-beyond-block", "allocation #%ld failing (step %u): after %s call the stralloc claims a capacity of %u bytes but owns a block of %ld: the next append writes past the end of the heap block", k, step, r ? "a successful" : "the failed", sa.a, own); bad = 1; }
+      else if (sa.len != reflen || (reflen && memcmp(sa.s, ref, reflen))) { H_FAIL("lib:alloc:content", "allocation #%ld failing (step %u): content differs from the bytes of the successful appends after append %u", k, step, i); bad = 1; }
+    }
+    if (failures) n_nontrivial++;
+    al_fail_at = -1; if (sa.s) __real_free(sa.s);
+  }
+  H_SAMPLE("alloc: the k-th allocation (k < 24) fails once while a stralloc grows by 1/7/100/1000 bytes x 150 appends; failed call changes nothing, content exact, claimed capacity <= owned block");
+}
+
 int main(int argc, char **argv)
 {
   h_init();
@@ -453,6 +488,7 @@ int main(int argc, char **argv)
   else if (!strcmp(argv[1], "map")) mode_map();
   else if (!strcmp(argv[1], "seek")) mode_seek(argv[2]);
   else if (!strcmp(argv[1], "cdb")) mode_cdb();
+  else if (!strcmp(argv[1], "alloc")) mode_alloc();
   else return 2;
   printf("STAT evaluations=%ld distinct_nontrivial=%ld library_cases_%s=%ld\n", n_eval, n_nontrivial, argv[1], n_eval);
   fflush(stdout);
